@@ -220,7 +220,7 @@ func TestC07(t *testing.T) {
 					t.Fatalf("INFRA: %v", err)
 				}
 				// the server considers the key established once it answered the last step: it may go on speaking
-				sc.Aftermath = []string{"", "new-session", "bad-salt", "update"}[idx/nsh%4]
+				sc.Aftermath = []string{"", "new-session", "bad-salt", "update", "close", "app-reconnect"}[idx/nsh%6]
 				n++
 				if err := evaluate(sc); err != nil {
 					if strings.HasPrefix(err.Error(), "INFRA:") {
@@ -252,7 +252,7 @@ func TestC07(t *testing.T) {
 			if rapid.Bool().Draw(t, "otherprimes") {
 				sc.HS.P, sc.HS.Q = 65537, 4294967291
 			}
-			sc.Aftermath = rapid.SampledFrom([]string{"", "new-session", "bad-salt", "update"}).Draw(t, "aftermath")
+			sc.Aftermath = rapid.SampledFrom([]string{"", "new-session", "bad-salt", "update", "close", "app-reconnect"}).Draw(t, "aftermath")
 			if err := evaluate(sc); err != nil {
 				if strings.HasPrefix(err.Error(), "INFRA:") {
 					t.Skipf("%v", err)
